@@ -100,6 +100,30 @@ Print Assumptions C20_inertia_sum_is_composite.
 Example C20_inertia_sum_nonvacuous : (2:R) + 3 <> 0.
 Proof. lra. Qed.
 
+(* SpatialInertia + SpatialInertia (hand model inertia_add, tied by the numeric correspondence) is the matrix sum:
+   commutative, keeps symmetry, and -- with the theorem above -- the inertia of the joined body *)
+Theorem C20_inertia_add_is_sum : forall A B : M66 R,
+  inertia_add Rops A B = madd66 Rops A B /\ inertia_add Rops A B = inertia_add Rops B A /\
+  (mtr66 A = A -> mtr66 B = B -> mtr66 (inertia_add Rops A B) = inertia_add Rops A B).
+Proof.
+  intros A B. split; [reflexivity|]. split.
+  - destruct_tuples. autounfold with smlin. sm_simpl. tuple_eq ltac:(ring).
+  - intros HA HB. destruct_tuples. autounfold with smlin in *. sm_simpl.
+    injection HA; intros; subst. injection HB; intros; subst. reflexivity.
+Qed.
+Print Assumptions C20_inertia_add_is_sum.
+
+Theorem C20_inertias_of_joined_bodies_add : forall (m1 m2 : R) (c1 c2 : V3 R) (I1 I2 : M33 R),
+  m1 + m2 <> 0 ->
+  let m := m1 + m2 in
+  let c := vscale3 Rops (/ m) (vadd3 Rops (vscale3 Rops m1 c1) (vscale3 Rops m2 c2)) in
+  let shift mk ck := let d := vsub3 Rops ck c in
+                     mscale33 Rops mk (msub33 Rops (mscale33 Rops (normsq3 Rops d) (I33 Rops)) (outer3 Rops d d)) in
+  inertia_add Rops (spatial_inertia Rops m1 c1 I1) (spatial_inertia Rops m2 c2 I2) =
+  spatial_inertia Rops m c (madd33 Rops (madd33 Rops I1 (shift m1 c1)) (madd33 Rops I2 (shift m2 c2))).
+Proof. intros. unfold inertia_add. apply C20_inertia_sum_is_composite. assumption. Qed.
+Print Assumptions C20_inertias_of_joined_bodies_add.
+
 (* inertia * acceleration and inertia * velocity are the matrix-vector product *)
 Theorem C20_inertia_mul : forall (J : M66 R) (a : V6 R),
   tr_I_acc Rops J a = mv66 Rops J a /\ tr_I_vel Rops J a = mv66 Rops J a.
